@@ -1,23 +1,23 @@
-\* leg A quick: 2 calls, all environment actions, liveness
-SPECIFICATION FairSpec
+\* leg A thorough: capacity 1 < queue limit 2 (early callers may be refused, then retry)
+SPECIFICATION Spec
 CONSTANTS
-  NCalls = 2
-  MaxDials = 2
+  NCalls = 3
+  MaxDials = 3
   QueueLimit = 2
-  ConnCap = 2
+  ConnCap = 1
   Policy = "code"
   MaxRetry = 2
   AttemptBound = 4
   Dev = {}
   NoWgWait = FALSE
   ExactScan = TRUE
-  MaxFaults = 2
+  MaxFaults = 1
   Kinds = {"stale", "dead"}
-  CancelCalls = {1}
-  EnvTClose = TRUE
+  CancelCalls = {}
+  EnvTClose = FALSE
   OrderedStart = TRUE
   WithHist = FALSE
 VIEW ViewNoHist
 INVARIANTS TypeOK FailOnlyWhen AttemptsBounded ErrOnFault ClosedRejects CloseClosesAll QueueBound CapBound NoSpuriousRefusal NoLeak
-PROPERTIES CallsEnd Released
+
 CHECK_DEADLOCK FALSE
